@@ -102,27 +102,27 @@ def items_ms(res):
 
 
 def judge_group(chk, gid, texts, results, desc=None):
-    base = results[0]
-    if base is None or base.get("st") in ("harness", "crash", "timeout"):
+    if any(r is None or r.get("st") in ("harness", "crash", "timeout") for r in results):
         chk.inconc("runner")
         return
-    if base["st"] != "ok":
-        chk.inconc("canonical-not-accepted")
-        log("C14: canonical member refused (%s): %s\n%s" % (gid, base.get("msg"), texts[0]))
+    ok = [i for i, r in enumerate(results) if r["st"] == "ok"]
+    if not ok:
+        # no spelling is accepted: nothing to compare (the request itself is the generator's or C01's problem)
+        chk.inconc("no-member-accepted")
+        log("C14: no member of the group accepted (%s): %s\n%s" % (gid, results[0].get("msg"), texts[0]))
         return
+    b = ok[0]
+    base = results[b]
     ref = items_ms(base)
     distinct = len(set(texts))
-    for text, r in zip(texts[1:], results[1:]):
-        if text == texts[0]:
-            continue
-        if r is None or r.get("st") in ("harness", "crash", "timeout"):
-            chk.inconc("runner")
+    for i, (text, r) in enumerate(zip(texts, results)):
+        if i == b or text == texts[b]:
             continue
         chk.evaluations += 1
         if r["st"] != "ok":
             chk.violation("spelling-refused|%s" % (r.get("msg", "")[:60]),
                           "one spelling is accepted, an equivalent one is refused (%s): %s\n--- accepted:\n%s\n--- refused:\n%s"
-                          % (r["st"], r.get("msg"), texts[0], text), {"a.rs": texts[0], "b.rs": text})
+                          % (r["st"], r.get("msg"), texts[b], text), {"a.rs": texts[b], "b.rs": text})
             return
         got = items_ms(r)
         if got != ref:
@@ -130,8 +130,8 @@ def judge_group(chk, gid, texts, results, desc=None):
             diff_b = list((got - ref).elements())[:2]
             chk.violation("spelling-differs|%s" % gid.split("#")[0],
                           "equivalent spellings expand differently\n--- A:\n%s\n--- B:\n%s\n--- only in A: %s\n--- only in B: %s"
-                          % (texts[0], text, diff_a, diff_b),
-                          {"a.rs": texts[0], "b.rs": text, "a.out": base.get("out", ""), "b.out": r.get("out", "")})
+                          % (texts[b], text, diff_a, diff_b),
+                          {"a.rs": texts[b], "b.rs": text, "a.out": base.get("out", ""), "b.out": r.get("out", "")})
             return
     chk.held(digest("\n".join(sorted(set(texts)))), distinct >= 2, 0)
     chk.count(gid.split("#")[0] if "#" in gid else "random")
